@@ -32,6 +32,14 @@ def run(ctx):
         "the Fortran side beyond ToImplied.visit_Identifier and the ftrim_char_in rule (wrap_function_impl's "
         "trim(arg)//C_NULL_CHAR actual argument, build_arg_list_impl len/len_trim actuals are covered under C04)",
     ]
+    # bounded stand-in (never counted as proved): upstream's compiled regression on freshly generated wrappers
+    r2 = ctx.monitor("m_e2e", "psearch", 100, ctx.seed, 16)
+    ctx.bounded.append({"monitor": "m_e2e", "inputs_tried": r2["tried"], "violation": r2["violation"],
+                        "kind": "bounded: the 22 Fortran test programs of regression/run compiled and linked against wrappers "
+                                "generated now (gcc/g++ with ASan+UBSan, gfortran -fbounds-check) and run to their FRUIT verdict",
+                        "bound": "%d test programs" % r2["tried"]})
+    if r2["violation"]:
+        ctx.violation("bounded/m_e2e", {"inputs": r2["inputs"], "observed": r2["violation"]}, True)
     return ctx.finish(level="proof" if units else "other",
                       explanation="call-site contracts over the statement tables decided by exhaustive evaluation; C helper "
                                   "functions under contract by the mini-C front end (when present)")
